@@ -299,8 +299,12 @@ void Mul::dict_add_term_new(const Ptr<RCP<const Number>> &coef,
                        and (not down_cast<const Number &>(*it->second)
                                     .is_exact()
                             or not down_cast<const Number &>(*t).is_exact())) {
-                imulnum(outArg(*coef), down_cast<const Number &>(*t).pow(
-                                           down_cast<const Number &>(*exp)));
+                // the exponents have been summed into it->second (`exp` is
+                // only the last increment and need not be a Number)
+                imulnum(outArg(*coef),
+                        down_cast<const Number &>(*t).pow(
+                            down_cast<const Number &>(*it->second)));
+                d.erase(it);
             }
         }
     }
